@@ -22,10 +22,12 @@ MT(q, i, ty, compile) ==
         filenames |-> IF t.kind = "custom" THEN [k \in DOMAIN t.outs |-> Join(OutDir(q, t), t.outs[k])]
                       ELSE IF t.kind = "exe" THEN <<Join(OutDir(q, t), t.name)>>
                       ELSE <<Join(OutDir(q, t), LibFile(t.name, ty))>>,
-        srcs |-> IF ~compile THEN <<>>
+        \* unity build: the unity files are the (generated) sources that are compiled, the originals are `unity`
+        srcs |-> IF ~compile \/ IsUnity(q, t) THEN <<>>
                  ELSE IF t.kind = "custom" THEN <<Src(t, "input")>> ELSE [k \in DOMAIN t.srcs |-> Src(t, t.srcs[k])],
-        gens |-> IF compile /\ IsBuild(t) THEN SetToSeq(GenC(q, t) \cup GenListC(q, t)) ELSE <<>>,
-        unity |-> <<>>, has_compile |-> compile, defined_in |-> Join(Loc(t), "meson.build"), depends |-> <<>>]
+        gens |-> IF compile /\ IsUnity(q, t) THEN SetToSeq(UnitySrcs(q, t))
+                 ELSE IF compile /\ IsBuild(t) THEN SetToSeq(GenC(q, t) \cup GenListC(q, t)) ELSE <<>>,
+        unity |-> IF compile /\ IsUnity(q, t) THEN [k \in DOMAIN t.srcs |-> Src(t, t.srcs[k])] ELSE <<>>, has_compile |-> compile, defined_in |-> Join(Loc(t), "meson.build"), depends |-> <<>>]
 ModelTargets(q) ==
     UNION {LET t == q.targets[i]
            IN IF IsRunLike(t) THEN {}
